@@ -139,7 +139,7 @@ pub fn strategy(prop: &'static str, thorough: bool) -> BoxedStrategy<CacheCase> 
     let ws1 = |n: usize| -> Vec<WS> { (0..n).map(|i| WS { strength: i as i32, autodispose: true }).collect() };
     match prop {
         "C18" => {
-            let rq = (prop::option::weighted(0.8, 1u8..5), 0u8..3).prop_map(move |(kl, m)| {
+            let rq = (prop::option::weighted(0.8, 1u8..5), 0u8..3, prop::option::weighted(0.4, 0u8..3)).prop_map(move |(kl, m, ms)| {
                 let mut rq = default_rq.clone();
                 rq.keep_last = kl;
                 rq.mspi = match (kl, m) {
@@ -147,6 +147,13 @@ pub fn strategy(prop: &'static str, thorough: bool) -> BoxedStrategy<CacheCase> 
                     (Some(d), 1) => Some(d + 1),
                     _ => None,
                 };
+                // a finite max_samples that the history fills exactly (d, 2d or 3d): a replacement at a full
+                // reader must still be a replacement (needs a limited max_samples_per_instance <= max_samples)
+                if let (Some(d), Some(k)) = (kl, ms) {
+                    let total = d * (k + 1);
+                    rq.max_samples = Some(total);
+                    rq.mspi = Some(rq.mspi.unwrap_or(d).min(total));
+                }
                 rq
             });
             (rq, 1usize..3)
@@ -1375,7 +1382,7 @@ pub fn eval(case: &CacheCase) -> CaseResult {
 fn nontrivial(prop: &str, out: &Outcome) -> bool {
     let has = |c: &str| out.classes.iter().any(|x| x == c || x.starts_with(c));
     match prop {
-        "C18" => has("depth_eq_mspi") || out.ops_done > 8,
+        "C18" => has("depth_eq_mspi") || has("replacement_at_max_samples") || out.ops_done > 8,
         "C19" => has("rejected:"),
         "C20" => has("masked_read") || has("max_samples_limiting"),
         "C21" => out.ops_done >= 4,
@@ -1467,7 +1474,7 @@ pub fn main(ctx: &Ctx) {
     };
     let thorough = ctx.tier == vcore::Tier::Thorough;
     let rule: &'static str = match prop {
-        "C18" => "histories of 5-40(120) ops: writes from 1-2 writers over 3 instances to a reader with KEEP_LAST d in 1..4 (max_samples_per_instance in {d, d+1, unlimited}) or KEEP_ALL, interleaved read/take(ANY); after every op the stored set per instance is compared with the model (last d received) and sample_rejected must stay 0; non-trivial = depth == max_samples_per_instance or more than 8 ops executed; distinct = hash of the case",
+        "C18" => "histories of 5-40(120) ops: writes from 1-2 writers over 3 instances to a reader with KEEP_LAST d in 1..4 (max_samples_per_instance in {d, d+1, unlimited}; in 40% of the cases a finite max_samples of d, 2d or 3d that the history fills exactly) or KEEP_ALL, interleaved read/take(ANY); after every op the stored set per instance is compared with the model (last d received) and sample_rejected must stay 0; non-trivial = depth == max_samples_per_instance or more than 8 ops executed; distinct = hash of the case",
         "C19" => "reader side (3/4 of the cases): histories of writes over 5 instances to a reader with small max_samples/max_instances/max_samples_per_instance (1..4, consistent with history), interleaved read/take(ANY); model predicts exactly which arrivals are rejected, count, reason set and instance. Writer side (1/4): KEEP_ALL reliable writer with small limits, 3-19 writes over 5 instances while the matched reader is partitioned (nothing acknowledged: exact accept/refuse pattern, refusal must be OutOfResources) or reachable (refusals only OutOfResources; refused samples never delivered, accepted ones all delivered after healing); non-trivial = at least one rejection/refusal due; distinct = hash of the case",
         "C20" => "histories of write/dispose/unregister from 1-2 writers over 3 instances and read/take/read_instance/take_instance with generated sample/view/instance masks and max_samples; result compared with model (matching set, per-instance storage order, grouping, sample_state marking, take removal, ranks, NoData, timestamps, handles); non-trivial = a masked or max_samples-limited read occurred; distinct = hash of the case",
         "C21" => "BY_SOURCE_TIMESTAMP reader, 1-2 writers, writes with explicit timestamps (random, equal, ascending, descending), read/take(ANY); per instance the presented order must be non-decreasing source timestamp (ties in arrival order); non-trivial = at least 4 ops executed; distinct = hash of the case",
